@@ -95,7 +95,10 @@ package evm
 //@   atcall beginExec assert [one-begin-per-transaction-in-order] calls(beginExec) == i && calls(end) == i
 //@   atcall exec assert [exec-for-the-current-transaction] arg0 == i && calls(beginExec) == i + 1 && calls(end) == i
 //@   atcall end assert [one-end-per-transaction-in-order] calls(end) == i && calls(beginExec) == i + 1
-//@   loop 0 invariant 0 <= i
+// (as many signature-checking workers are started as configured - at least one, or nothing would ever mark a transaction
+// checked and the executor would wait for ever; the workers themselves are outside the sequential model)
+//@   atcall beginExec assert [all-configured-validation-workers-were-started] calls(validateRoutine) == validateRoutineCount && validateRoutineCount >= 1 && calls(initTxQueue) == 1
+//@   loop 0 invariant 0 <= i && calls(validateRoutine) == i && i <= validateRoutineCount && 1 <= validateRoutineCount && calls(initTxQueue) == 1
 //@   loop 1 invariant 0 <= i && 0 <= i && calls(beginExec) == i && calls(end) == i && size == len(txs)
 //@   loop 2 invariant 0 <= j && calls(beginExec) == i + 1 && calls(end) == i
 //@   loop 3 invariant calls(beginExec) == i + 1 && calls(end) == i
